@@ -32,7 +32,9 @@ Definition spec_bits (s : state) (o : op) (r : Z) (s' : state) : Z :=
   (b 0 (single_driver_b s') + b 1 (unique_children_b s') + b 2 (unique_wires_b s')
    + b 3 (children_stay_b s s') + b 4 (drivers_stay_b s s') + b 5 (wires_stay_b s o s')
    + b 6 (match conflict_of s o with Some _ => Z.eqb r 1 | None => true end)
-   + b 7 (sinks_exact_b s'))%Z.
+   + b 7 (sinks_exact_b s')
+   + b 8 (negb (Z.eqb r 1) || dump_eqb (dump s) (dump s'))     (* a raising call leaves the object graph untouched *)
+   + b 9 (all_registered_b s'))%Z.
 
 (* failing steps of a recorded real run: (index, failing clauses, was the subject wire registered before the call) *)
 Fixpoint spec_scan (s : state) (ops : list op) (rec : list (Z * dumpT)) (i : Z) : list (Z * Z * bool) :=
@@ -46,7 +48,7 @@ Fixpoint spec_scan (s : state) (ops : list op) (rec : list (Z * dumpT)) (i : Z) 
 
 (* integrity of hierarchy h of a (loaded) state: model verdict (1 = raises, 0 = accepts, 2 = out of fuel),
    spec verdict (some visited port is undriven), and whether a visited in-port has a source that is in
-   neither inPorts nor outPorts of its block (the checkPort clause) *)
+   none of inPorts / outPorts / inOutPorts of its block (the checkPort clause; impossible in a constructed netlist) *)
 Definition stray_b (s : state) (h : nat) : bool :=
   existsb (fun o => anc_b (nobj s) s h o &&
                     existsb (fun q => is_some (wsource s (pwire s q)) && in_bad s q) (oin s o))
